@@ -532,6 +532,11 @@ def gen_case(rng, runner=None, knobs=None):
             y['targets'] = ['o%d_%s' % (c, tchars[j % 8])] if rng.random() < 0.6 else []
             y['file_dep'] = []
             y['utd'] = rng.random() < 0.2
+            prev_t = [t for p in yields[:j] for t in p.get('targets', [])]
+            if prev_t and rng.random() < 0.15:
+                # a created task consuming another created task's target: implicit task_dep (set_implicit_deps)
+                y['file_dep'] = [rng.choice(prev_t)]
+                y['utd'] = False
             y['fails'] = rng.random() < k.get('p_fail', 0.08)
         cr = {'fname': fname, 'executed': executed, 'creates': creates, 'regex': regex, 'yields': yields}
         creators.append(cr)
@@ -612,9 +617,11 @@ def render(case):
             cr = [c for c in case['creators'] if c['fname'] == item][0]
             lines.append('@create_after(executed=%r, creates=%r, target_regex=%r) def task_%s: yields %s' % (
                 cr['executed'], cr['creates'], cr['regex'], cr['fname'],
-                ['%s%s deps=%s targets=%s%s%s' % (y.get('basename') or '', (':' + y['sub']) if y.get('sub') else '',
-                                                   y['task_dep'], y['targets'], ' utd' if y['utd'] else '',
-                                                   ' FAILS' if y['fails'] else '') for y in cr['yields']]))
+                ['%s%s deps=%s targets=%s%s%s%s' % (y.get('basename') or '', (':' + y['sub']) if y.get('sub') else '',
+                                                     y['task_dep'], y['targets'],
+                                                     ' file_dep=%s' % y['file_dep'] if y.get('file_dep') else '',
+                                                     ' utd' if y['utd'] else '',
+                                                     ' FAILS' if y['fails'] else '') for y in cr['yields']]))
     lines.append('doit %s' % ' '.join(argv_of(case)))
     return lines
 
@@ -725,7 +732,9 @@ def eval_cases(cases):
     return [(c, o, a) for (c, o), a in zip(out, answers)]
 
 
-def still_fails(case, want):
+def still_fails(case, want, avoid_known=True):
+    if avoid_known and (uncovered_creates(case) or sig_subtask_then_regex({'case': case})):
+        return False        # never shrink a witness INTO the input shape of an open finding
     try:
         (c, obs, ans), = eval_cases([case])
     except Exception:  # noqa
